@@ -289,6 +289,33 @@ theorem subregionsByCds_set_walk_witness :
     subregionsByCds false 5000 20000 (fun n => if n = 0 then some (1000, 1300) else if n = 1 then some (3000, 3300) else none) [1, 0] =
       [(0, 5000, 1), (0, 5000, 0)] := by decide
 
+/-! ## stage `getRuleset`: the rule subset options of hmm_detection -/
+
+/-- `--hmmdetection-limit-to-rule-names / -categories` arrive as sets that are only asked for
+    membership: however they iterate (any two enumerations with the same members, repeats allowed —
+    i.e. also however the user ordered or repeated the names), the restricted rule list, and with it
+    the order in which the rules are applied, is the same -/
+theorem restrictRules_enumeration_invariant (rules : List (Int × Int)) (n₁ n₂ c₁ c₂ : List Int)
+    (hn : ∀ x, x ∈ n₁ ↔ x ∈ n₂) (hc : ∀ x, x ∈ c₁ ↔ x ∈ c₂) :
+    restrictRules rules n₁ c₁ = restrictRules rules n₂ c₂ :=
+  restrictRules_congr rules hn hc
+
+/-- the restricted rules keep the order of the rule files -/
+theorem restrictRules_keeps_file_order (rules : List (Int × Int)) (n c : List Int) :
+    (restrictRules rules n c).Sublist rules :=
+  restrictRules_sublist rules n c
+
+/-- … and so is `enabled_types` of the saved results -/
+theorem enabledTypesOf_enumeration_invariant (rules : List (Int × Int)) (n₁ n₂ c₁ c₂ : List Int)
+    (hn : ∀ x, x ∈ n₁ ↔ x ∈ n₂) (hc : ∀ x, x ∈ c₁ ↔ x ∈ c₂) :
+    enabledTypesOf rules n₁ c₁ = enabledTypesOf rules n₂ c₂ := by
+  simp only [enabledTypesOf, restrictRules_congr rules hn hc]
+
+/-- five rules in file order; names {4, 1, 3} given in two orders with a repeat, categories {7} -/
+example : restrictRules [(3, 7), (1, 7), (5, 8), (4, 9), (2, 7)] [4, 1, 3] [7] = [(3, 7), (1, 7)] ∧
+    restrictRules [(3, 7), (1, 7), (5, 8), (4, 9), (2, 7)] [3, 3, 1, 4] [7, 7] = [(3, 7), (1, 7)] ∧
+    enabledTypesOf [(3, 7), (1, 7), (5, 8), (4, 9), (2, 7)] [4, 1, 3] [] = [1, 3, 4] := by decide
+
 /-! ## stage `writeRecord` (Feature.to_biopython + Record.to_biopython → GenBank / JSON) -/
 
 /-- no hash-ordered container reaches the output order: the features are emitted from a stable
@@ -422,6 +449,22 @@ theorem create_regions_order_on_line (len : Int) (c₁ s₁ c₂ s₂ : List Reg
     (hd : ∀ a ∈ c₁ ++ s₁, ∀ b ∈ c₁ ++ s₁, lineKey a.loc = lineKey b.loc → a = b)
     (hp : (c₁ ++ s₁).Perm (c₂ ++ s₂)) : sectionsOf none c₁ s₁ = sectionsOf none c₂ s₂ :=
   create_regions_order_is_function_of_multiset_partial none _ c₁ s₁ c₂ s₂ (separatingKey_line hl hd) hp
+
+/-- the same on a CIRCULAR record as long as no area spans the origin (every area one part inside the
+    record): `CDSCollection.__lt__` does not look at the wrap point, so H is again "no two areas have the
+    same coordinates" — this covers the merge of the last section into the first over the origin -/
+theorem create_regions_order_without_origin_spanning_areas_partial (wrap : Option Int) (len : Int)
+    (c₁ s₁ c₂ s₂ : List Regions.Feat)
+    (hl : ∀ a ∈ c₁ ++ s₁, LineArea len a.loc)
+    (hd : ∀ a ∈ c₁ ++ s₁, ∀ b ∈ c₁ ++ s₁, lineKey a.loc = lineKey b.loc → a = b)
+    (hp : (c₁ ++ s₁).Perm (c₂ ++ s₂)) : sectionsOf wrap c₁ s₁ = sectionsOf wrap c₂ s₂ :=
+  create_regions_order_is_function_of_multiset_partial wrap _ c₁ s₁ c₂ s₂ (separatingKey_line hl hd) hp
+
+/-- a circular record of 1000 bases, three candidates that do not span the origin, supplied in two orders -/
+example : sectionIds (sectionsOf (some 1000) [⟨0, .cand, .simple ⟨100, 300, .fwd⟩, [], [], []⟩, ⟨1, .cand, .simple ⟨250, 400, .fwd⟩, [], [], []⟩,
+      ⟨2, .cand, .simple ⟨700, 900, .fwd⟩, [], [], []⟩] []) = some [[0, 1], [2]] ∧
+    sectionIds (sectionsOf (some 1000) [⟨2, .cand, .simple ⟨700, 900, .fwd⟩, [], [], []⟩, ⟨1, .cand, .simple ⟨250, 400, .fwd⟩, [], [], []⟩,
+      ⟨0, .cand, .simple ⟨100, 300, .fwd⟩, [], [], []⟩] []) = some [[0, 1], [2]] := by decide +kernel
 
 /-- … and so is the record after `create_regions(candidate_clusters, subregions)` -/
 theorem create_regions_state_is_function_of_multiset_partial (s : Regions.State) (key : Regions.Feat → Int × Int)
